@@ -901,8 +901,9 @@ Definition sdf_meta_step (st : str * list (str * list str)) (line : str) : str *
 Definition sdf_read_metadata (lines : list str) : list (str * str) :=
   dd_finish (snd (fold_left sdf_meta_step lines ([], []))).
 
-(* RDFRead.read_metadata; the character SET of line.lstrip("$DATUM") *)
+(* RDFRead.read_metadata: `(line[6:] if line.startswith('$DATUM') else line).strip()` (the literal prefix only) *)
 Definition datum_set : str := L "$DATUM".
+Definition datum_body (line : str) : str := if startswith datum_set line then slice_from 6 line else line.
 Definition rdf_meta_step (st : str * list (str * list str)) (line : str) : str * list (str * list str) :=
   let '(mkey, meta) := st in
   if startswith (L "$DTYPE") line then
@@ -913,7 +914,7 @@ Definition rdf_meta_step (st : str * list (str * list str)) (line : str) : str *
     end
   else match mkey with
        | [] => (mkey, dd_append meta unparsed_key (strip line))
-       | _ => match strip (lstrip_set datum_set line) with [] => st | d => (mkey, dd_append meta mkey d) end
+       | _ => match strip (datum_body line) with [] => st | d => (mkey, dd_append meta mkey d) end
        end.
 Definition rdf_read_metadata (lines : list str) : list (str * str) :=
   dd_finish (snd (fold_left rdf_meta_step lines ([], []))).
